@@ -168,6 +168,9 @@ func (c *Conn) AsyncRead() {
 	if g.isOneshot {
 		g.IOExecute(func(pbuf *[]byte) {
 			for i := 0; i < g.MaxConnReadTimesPerEventLoop; i++ {
+				// the previous delivery shrank the buffer to the size of its data.
+				*pbuf = (*pbuf)[:cap(*pbuf)]
+				bufLen := len(*pbuf)
 				rc, n, err := c.ReadAndGetConn(pbuf)
 				if n > 0 {
 					*pbuf = (*pbuf)[:n]
@@ -183,7 +186,7 @@ func (c *Conn) AsyncRead() {
 					_ = c.closeWithError(err)
 					return
 				}
-				if n < len(*pbuf) && !c.IsUDP() {
+				if n < bufLen && !c.IsUDP() {
 					break
 				}
 			}
@@ -208,6 +211,9 @@ func (c *Conn) AsyncRead() {
 		for {
 			// try to read all the data available.
 			for i := 0; i < g.MaxConnReadTimesPerEventLoop; i++ {
+				// the previous delivery shrank the buffer to the size of its data.
+				*pBuf = (*pBuf)[:cap(*pBuf)]
+				bufLen := len(*pBuf)
 				rc, n, err := c.ReadAndGetConn(pBuf)
 				if n > 0 {
 					*pBuf = (*pBuf)[:n]
@@ -225,7 +231,7 @@ func (c *Conn) AsyncRead() {
 				}
 				// a short read means "drained" for a stream only;
 				// more datagrams may be waiting behind this one.
-				if n < len(*pBuf) && !c.IsUDP() {
+				if n < bufLen && !c.IsUDP() {
 					break
 				}
 			}
